@@ -40,8 +40,9 @@ type (
 		Data string `json:"x"` // hex
 	}
 	verifC04Stream struct {
-		Raw  []verifC04Chunk   `json:"raw"`
-		Conv [][]verifC04Chunk `json:"conv"` // per converter; null = not cached
+		Raw   []verifC04Chunk   `json:"raw"`
+		Sport int               `json:"sport"` // server port, 0 = 80
+		Conv  [][]verifC04Chunk `json:"conv"`  // per converter; null = not cached
 	}
 	verifC04Var struct {
 		Pos  uint   `json:"pos"`
@@ -59,7 +60,8 @@ type (
 	verifC04Case struct {
 		ID      int              `json:"id"`
 		NConv   int              `json:"nconv"`
-		Conv    string           `json:"conv"` // converter name of all conditions: "", "none", "c0"...
+		Conv    string           `json:"conv"`  // converter name of all conditions: "", "none", "c0"...
+		Sport   int              `json:"sport"` // != 0: every conjunction also carries the filter sport:<n>
 		Streams []verifC04Stream `json:"streams"`
 		Or      [][]verifC04Cond `json:"or"`
 	}
@@ -106,7 +108,10 @@ func (c *verifC04Converter) DataForSearch(streamID uint64) ([2][]byte, [][2]int,
 	return data, sizes, uint64(len(data[0])), uint64(len(data[1])), true, nil
 }
 
-func verifC04MakeStream(id int, chunks []verifC04Chunk) streams.Stream {
+func verifC04MakeStream(id int, chunks []verifC04Chunk, sport int) streams.Stream {
+	if sport == 0 {
+		sport = 80
+	}
 	t := time.Date(2020, 1, 1, 12, 0, 0, 0, time.UTC).Add(time.Hour * time.Duration(id+1))
 	t2 := t.Add(time.Second * time.Duration(2+len(chunks)))
 	pcapinfo := &pcapmetadata.PcapInfo{
@@ -136,7 +141,7 @@ func verifC04MakeStream(id int, chunks []verifC04Chunk) streams.Stream {
 		pcapmetadata.AddPcapMetadata(&packets[i], pcapinfo, uint64(i))
 	}
 	ca := netip.MustParseAddrPort("192.168.0.100:1234")
-	sa := netip.MustParseAddrPort("192.168.0.1:80")
+	sa := netip.MustParseAddrPort(fmt.Sprintf("192.168.0.1:%d", sport))
 	return streams.Stream{
 		ClientAddr: ca.Addr().AsSlice(), ServerAddr: sa.Addr().AsSlice(), ClientPort: ca.Port(), ServerPort: sa.Port(),
 		Packets: packets, PacketDirections: dirs, Data: sd,
@@ -373,6 +378,10 @@ func verifC04Run(c *verifC04Case, dir string) (out verifC04Out) {
 				}
 				any = any || ok
 			}
+			// the non-data filter of the case (evaluated after the data conditions so that all substituted expressions are known)
+			if sp := c.Streams[id].Sport; c.Sport != 0 && sp != c.Sport && !(sp == 0 && c.Sport == 80) {
+				any = false
+			}
 			if any {
 				sel = append(sel, strconv.Itoa(id))
 			}
@@ -403,7 +412,7 @@ func verifC04Run(c *verifC04Case, dir string) (out verifC04Out) {
 			converters[fmt.Sprintf("c%d", i)] = convs[i]
 		}
 		for id := range c.Streams {
-			s := verifC04MakeStream(id, c.Streams[id].Raw)
+			s := verifC04MakeStream(id, c.Streams[id].Raw, c.Streams[id].Sport)
 			ok, err := w.AddStream(&s, uint64(id))
 			if err != nil || !ok {
 				out.Impl = fmt.Sprintf("ERR addstream %v %v", ok, err)
@@ -424,9 +433,18 @@ func verifC04Run(c *verifC04Case, dir string) (out verifC04Out) {
 			r.Close()
 			os.Remove(r.Filename())
 		}()
+		extra := query.Conditions{}
+		if c.Sport != 0 {
+			q, err := query.Parse(fmt.Sprintf("sport:%d", c.Sport))
+			if err != nil || len(q.Conditions) != 1 {
+				out.Impl = "ERR parse sport filter"
+				return
+			}
+			extra = q.Conditions[0]
+		}
 		qs := query.ConditionsSet{}
 		for _, conj := range c.Or {
-			cs := query.Conditions{}
+			cs := append(query.Conditions{}, extra...)
 			for _, cd := range conj {
 				dc := &query.DataCondition{Inverted: cd.Inv}
 				for _, e := range cd.Elems {
